@@ -19,7 +19,7 @@ ASSUMPTIONS = ["indices in [-n-1, n+1]; objects are unique strings from a pool o
                "check_on_set=True (objects supplied at declaration)"]
 
 OBJS = ['A', 'B', 'C', 'D', 'E', 'F', 'G', 'H', 'I', 'J', 'K']
-KEYS = ['k0', 'k1', 'k2', 'k3', 'k4']
+KEYS = ['k0', 'k1', 'k2', 'k3', 'k4', '']      # the empty string is a legitimate (falsy) name
 N_LIST_OPS = 10
 N_DICT_OPS = 8
 
@@ -246,6 +246,14 @@ def shards(tier):
                             out.append(dict(name='s%dk%dl%d_o%d_%d' % (style, kind, level, o1, o2), module='harness.c18',
                                             fn='prog', consts=dict(style=style, kind=kind, level=level, k=k, o1=o1, o2=o2, cos=True),
                                             budget_s=240))
+    if tier == 'quick':
+        # [assign a value, mutate the objects (possibly removing it), assign again]: membership against the current objects
+        for style in (0, 1):
+            assign = (N_LIST_OPS if style == 0 else N_DICT_OPS) - 1
+            for kind in (0, 1):
+                for o2 in ((3, 4, 5, 6, 7, 8) if style == 0 else (2, 3, 4, 5, 6)):
+                    out.append(dict(name='re_s%dk%d_o%d' % (style, kind, o2), module='harness.c18', fn='prog',
+                                    consts=dict(style=style, kind=kind, level=1, k=3, cos=True, o1=assign, o2=o2, o3=assign), budget_s=60))
     # check_on_set=False on a dict-declared Selector: [assign an unknown value, add a key, re-assign / pop / update that key ...]
     for o2 in range(N_DICT_OPS):
         for o3 in (range(N_DICT_OPS) if tier != 'quick' else (0, 1, 2)):
